@@ -1,6 +1,6 @@
 """Which units decide which property (DESIGN.md §5)."""
 
-BUNDLES = ["core", "processor", "chanbuf"]
+BUNDLES = ["core", "processor", "chanbuf", "moduletree"]
 KANI_UNITS = []
 
 A_DLL = "DualLinkedList contract (abstract view Seq<(E,Duration,usize)>; add = stable insert behind all entries with time <= t, pop_min = remove front, cancel = remove first entry with the id, front_time): assumed — raw-pointer code outside Verus"
@@ -74,5 +74,14 @@ PROPS = {
         "not_covered": ["transmission and arrival TIMES (size*8/bitrate + latency + jitter): f64 arithmetic in calculate_busy/calculate_duration — no float theory within reach",
                         "Channel::send_message / unbusy (Arc<Self> + RwLock + global RNG + dyn probe): 'busy exactly for the transmission time', 'delivered exactly once to the next hop', 'never stuck once idle' are NOT decided",
                         "only the queue/drop accounting of C07 is claimed: Buffer invariant, FIFO, Drop and Queue(limit) policies"],
+    },
+    "C12": {
+        "bundles": ["moduletree"],
+        "fns": {"moduletree": ["ModuleTree::add"]},
+        "assumptions": ["ObjectPath (des/src/net/path.rs, string slicing) is opaque: abstract value = sequence of segments; parent() = drop the last segment, is_root/len/== follow the segments: assumed contracts",
+                        "ModuleRef shim: the Arc<ModuleContext> deref is collapsed to a struct with the `path` field",
+                        "precondition: the path to add is not yet in the tree (the builder's duplicate check is outside this unit)"],
+        "not_covered": ["stage-major loops of SimLifecycle::at_sim_start/at_sim_end (mutex, clones, harness): 'all stage-i calls precede stage-(i+1)', 'exactly once per stage', at_sim_end exactly once",
+                        "builder panics for duplicate path / missing parent (only 'add returns normally => the parent was present' is proved)", "ObjectPath implementation, parent/child lookups"],
     },
 }
